@@ -38,6 +38,7 @@ type config struct {
 	openKF     map[string]bool
 	trace      bool
 	concrete   bool
+	dumpQ      int
 }
 
 func main() {
@@ -57,6 +58,7 @@ func main() {
 	flag.BoolVar(&cfg.falsify, "falsify", false, "vacuity twin: every assertion replaced by false")
 	flag.StringVar(&kf, "open-kf", "", "comma separated ids of open known findings")
 	flag.BoolVar(&cfg.trace, "trace", false, "trace instructions")
+	flag.IntVar(&cfg.dumpQ, "dump-queries", 0, "dump up to N assertion queries per harness for cross-checking")
 	flag.Parse()
 	cfg.pkgs = splitList(pkgs)
 	cfg.harnesses = splitList(hs)
@@ -217,6 +219,8 @@ type workQueue struct {
 func runHarness(prog *ssa.Program, fn *ssa.Function, name string, cfg *config) *harnessRun {
 	hr := &harnessRun{name: name, asserted: map[string]int{}, reached: map[string]int{}, funcs: map[string]bool{}, stubs: map[string]bool{}}
 	hr.falsify = cfg.falsify
+	hr.dumpDir = cfg.out
+	hr.dumpMax = cfg.dumpQ
 	hr.openKF = cfg.openKF
 	q := &workQueue{stack: [][]int{{}}}
 	q.cond = sync.NewCond(&q.mu)
